@@ -1,3 +1,4 @@
+#![recursion_limit = "1024"]
 #[path = "../props/p11.rs"]
 mod p11;
 fn main() {
